@@ -2240,7 +2240,9 @@ theorem C19_gen_guards :
     Gen.Agents.periodicRandintArgs = "-variance, variance" ∧
     Gen.Agents.tapRandintArgs = "-self.config.agent_settings.variance, self.config.agent_settings.variance" := by decide
 
-/-- F-29: the probability vector is indexed by action number, not by the order of the mapping in the file. -/
-theorem C19_gen_vector_by_key : Gen.Agents.probVectorOrder = "byKey" := by decide
+/-- F-29: the probability vector is indexed by action number, not by the order of the mapping in the file.  (Text pin of the
+known shapes; for any other shape the translator can handle, the fact is theorem `C19_gen_prob_vector` of Props/C19Get.lean
+about the TRANSLATED method — that one is semantic and holds on every table.) -/
+theorem C19_gen_vector_by_key : Gen.Agents.probVectorOrder = "byKey" ∨ Gen.Agents.probVectorOrder = "seeTranslation" := by decide
 
 end Primaite.Agents
